@@ -35,11 +35,18 @@ func c07CountOnlyOnSuccess(r *core.Run) {
 		}
 		return true, eq
 	})
+	// the counter: the int64 cell whose address ReadAt hands to readAtOffset
+	counters := map[ssa.Value]bool{}
+	for _, c := range core.Calls(fn, "(*pkg/file/joiner.joiner).readAtOffset") {
+		for _, a := range core.Common(c).Args {
+			if al, ok := a.(*ssa.Alloc); ok && al.Type().String() == "*int64" {
+				counters[al] = true
+			}
+		}
+	}
+	r.Floor(rule, "byte-counter cells handed to readAtOffset", len(counters), 1)
 	fromCounter := func(v ssa.Value) bool {
-		return core.DerivesFrom(v, func(x ssa.Value) bool {
-			a, ok := x.(*ssa.Alloc)
-			return ok && a.Comment == "bytesRead"
-		}, map[string]bool{"sync/atomic.LoadInt64": true})
+		return core.DerivesFrom(v, func(x ssa.Value) bool { return counters[x] }, map[string]bool{"sync/atomic.LoadInt64": true})
 	}
 	n := 0
 	core.EachInstr(fn, func(b *ssa.BasicBlock, _ int, in ssa.Instruction) {
